@@ -38,5 +38,9 @@ func main() {
 	}
 	c := NewCheck(id, tier, def.level)
 	def.fn(c)
+	if c.partial != "" {
+		c.FinishPartial()
+		os.Exit(0)
+	}
 	os.Exit(c.Finish())
 }
